@@ -18,7 +18,8 @@ RULE = ("every key of chord_shorthand / chord_shorthand_meaning x every root (le
         "Hypothesis text, valid root + unknown suffix, bad root + valid suffix, bad slash bass; table agreement. "
         "Non-trivial: a root with an accidental, or an alias/slash/polychord form, or a chord containing a "
         "double-accidental note; for malformed input a string that starts with a valid root or ends in a known "
-        "shorthand.")
+        "shorthand."
+        " Also: three- and four-part polychords, slash chords as upper / lower part of a polychord, any valid name (mixed / many accidentals) as slash bass, 'X|NC', and a coverage-guided atheris campaign over shorthand-like text.")
 ASSUMPTIONS = [
     "the empty string and empty slash/polychord halves ('', 'C/', 'C|', 'C//G', and the empty chord as a polychord "
     "half: 'C|NC') are outside the malformed domain",
